@@ -11,6 +11,8 @@ type Subst struct {
 	Var    *FVar // optional: a free field symbol replaced by the constant VarVal
 	VarVal *Poly
 	IBind  map[*IAtom]*Term // optional: integer atoms replaced by terms (bindings of symbolic integers)
+	PBind  map[*PAtom]*Term // optional: free boolean symbols replaced by 0/1 terms (renaming)
+	Chains bool             // also rebuild borrow-chain difference words (renaming)
 	tm     map[*Term]*Term
 	pm     map[*Poly]*Poly
 	am     map[*PAtom]*Term
@@ -55,6 +57,10 @@ func (s *Subst) patom(p *PAtom) *Term {
 		return r
 	}
 	var r *Term
+	if b, ok := s.PBind[p]; ok {
+		s.am[p] = b
+		return b
+	}
 	switch p.Kind {
 	case PLT:
 		r = LT(s.Term(p.A), s.Term(p.B))
@@ -90,6 +96,19 @@ func (s *Subst) iatom(a *IAtom) *Term {
 		r = LimbOf(s.Term(a.T), a.Idx)
 	case IByte:
 		r = ByteOf(s.Term(a.T), a.Idx)
+	case ICDiff:
+		if s.Chains {
+			var links []*Chain
+			for c := a.Chain; c != nil; c = c.Prev {
+				links = append([]*Chain{c}, links...)
+			}
+			bin := TInt(0)
+			for _, l := range links {
+				r, bin = Sub64(s.Term(l.X), s.Term(l.Y), bin)
+			}
+		} else {
+			r = TAtom(a)
+		}
 	case INzFold:
 		r = NzFold(s.Term(a.T))
 	case IWOp:
